@@ -459,7 +459,7 @@ def alt_builders(ck, binp, variant=None, coq_ok=False):
     ck.cov["alt_builder_cases"] = kinds
     ck.cov["alt_builder_cases_pruned_with_matching_row"] = nontriv
     if coq_ok and variant is not None:
-        mism, ok = eval_alt_model(ck, cases, variant)
+        mism, ok = eval_alt_model(ck, [c for c in cases if c["kind"] != "panic"], variant)   # panicked cases: oracle loop only
         ck.cov["alt_builder_cases_validated_against_model"] = len(cases) - len(mism) if ok else 0
         if ok and mism:
             i = min(mism)
